@@ -29,6 +29,10 @@ RUNS = [
 ]
 
 
+
+def _lm_text(lm):
+    return lm.msg if getattr(lm, "plain", False) else "axes of different provenance are combined: " + lm.msg
+
 def run_all(repo, R, rule="AXTYPE-K", relevant=None, names=None):
     """-> list of (name, func, extractor or None).  Ill-typed kernels are reported under `rule`; with `relevant` (a predicate on the
     bases of the axes that do not fit) only the mismatches the calling property is about - the others belong to the property of the
@@ -51,7 +55,7 @@ def run_all(repo, R, rule="AXTYPE-K", relevant=None, names=None):
                 for cand in repo.all_functions():
                     if any(n is lm.node for n in ast.walk(cand.node)):
                         g = cand
-                R.fail(rule, g.site, ast.unparse(lm.node)[:100], f"[{tag}] axes of different provenance are combined: {lm.msg}", where=g.where(lm.node))
+                R.fail(rule, g.site, ast.unparse(lm.node)[:100], f"[{tag}] {_lm_text(lm)}", where=g.where(lm.node))
                 out.append((tag, f, None))
                 continue
             for sub in ex.all_extractors():
